@@ -41,7 +41,8 @@ def server(ctx):
             pass
         stop_server(ctx)
     from pyworkers.remote_server import spawn_server
-    srv = bounded(spawn_server, 30, ('127.0.0.1', 0))
+    # (server_close_on_none: a server started the way run_server() / the command line do; set per shard by the checks that want it)
+    srv = bounded(spawn_server, 30, ('127.0.0.1', 0), **({'close_on_none': True} if ctx.data.get('server_close_on_none') else {}))
     if not srv.is_alive():
         raise HarnessError('could not start a remote server')
     ctx.data['server'] = srv
